@@ -2,7 +2,7 @@
 # run every seeded change against its property's quick check (scratch worktrees; /repo untouched); writes seeded/MATRIX.md
 cd "$(dirname "$0")/.."
 OUT=seeded/MATRIX.md
-IDS="${*:-$(ls seeded | grep -E '^C[0-9]+-[A-F]$')}"
+IDS="${*:-$(ls seeded | grep -E '^C[0-9]+-[A-H]$')}"
 [ -f "$OUT" ] || printf '| seeded change | property check | caught by P (deductive obligation) | caught by B (bounded tier) | what it needs |\n|---|---|---|---|---|\n' > "$OUT"
 for d in $IDS; do
   id=${d%-*}
